@@ -296,7 +296,10 @@ def run_cfg(ctx, p, cfg):
             r.require(src_ok, "handler-gets-each-error", fn=ll, site=h.at, detail="handler argument is the iterator item of the returned error vector: %s" % show(arg, 7))
             # .. and nothing but "there are errors" and "there is another one" decides whether the handler runs
             extra = []
+            site_conds = {(sb2, frozenset(si2.label(v) for v, _ in al2)) for sb2, si2, al2 in ll.conditions(site.block)}
             for sb_, si_, al_ in ll.conditions(h.block):
+                if (sb_, frozenset(si_.label(v) for v, _ in al_)) in site_conds:
+                    continue   # a condition the delivery itself stands under: without the delivery there is no error to hand over
                 d_ = strip(si_.discr)
                 inner_ = strip(d_[1]) if d_[0] == "discr" else d_
                 from_delivery = any(x[0] == "call" and x[1] == site.callee for x in walk(inner_))
